@@ -432,6 +432,10 @@ class MarkdownNormalizer(Renderer):
 
         with self.container("> ", "> "):
             result = self.render_children(element).rstrip("\n")
+            # Every line of a quote needs its marker: a completely empty line (such as the
+            # one after a heading) would end the quote when the output is read again.
+            marker = self._second_prefix.rstrip()
+            result = "\n".join(line if line else marker for line in result.split("\n"))
         self._prefix = self._second_prefix
         # After rendering a quote block, don't suppress the next item break
         # This ensures proper spacing after list items with quote blocks
@@ -767,6 +771,10 @@ class MarkdownNormalizer(Renderer):
 
         with self.container("> ", "> "):
             result = self.render_children(element).rstrip("\n")
+            # Every line of a quote needs its marker: a completely empty line (such as the
+            # one after a heading) would end the quote when the output is read again.
+            marker = self._second_prefix.rstrip()
+            result = "\n".join(line if line else marker for line in result.split("\n"))
 
         self._prefix = self._second_prefix
         # After rendering an alert block, don't suppress the next item break
